@@ -592,6 +592,42 @@ def r6(ctx):
     if fan:
         n = skip_site(ctx, prog, fan, "FindAllNodes::next", {"match_node", "match_node_with_env"})
         ctx.floor("R6", "FindAllNodes skip sites", n, 1)
+        # …and the kind test is the ONLY way a candidate avoids the matcher: no second prefilter (node width, named-ness, text) between the
+        # traversal and match_node — find_all must agree with trying the matcher on every node
+        from ..query import path_avoiding, iter_chain, DROPPING_ITER
+        fi = prog.inlined(fan)
+        heads = [c for c in fi.calls if c.name == "next" and fi.in_loop(c.bb) and "Iterator" in (c.callee.get("trait") or "")]
+        mcs = [c for c in fi.calls if c.name in ("match_node", "match_node_with_env") and c.bb in fi.live_blocks]
+        if heads and mcs and any(fi.in_loop(m.bb) for m in mcs):
+            h = [c for c in heads if fi.dominates(c.bb, mcs[0].bb)][-1:] or heads[:1]
+            arms = option_arms(fi, h[0])
+            allowed = []
+            for c in fi.calls:
+                if c.name == "contains" and "BitSet" in c.best:
+                    ba = bool_arms(fi, c)
+                    if ba:
+                        allowed.append(ba["false"])
+            skipping = [sb for sb in arms["some"] if path_avoiding(fi, sb, [m.bb for m in mcs] + allowed, [h[0].bb])]
+            ctx.ob("R6", "FindAllNodes::next/only the kind test skips a candidate", bool(arms["some"]) and not skipping,
+                   "every path from a traversed node to the next one passes the matcher or the not-contained arm of the kind test" if not skipping else
+                   "a traversed node can be skipped without the matcher being tried and without failing the kind test (from bb%s): find_all then misses nodes that the matcher, "
+                   "tried on each node, accepts" % skipping, where=fan.loc())
+        else:
+            # iterator form: dfs.filter(kind test).find_map(match_node): no other element-dropping adaptor in the pipeline
+            drops = []
+            for g in prog.family(fi):
+                for c in g.calls:
+                    if c.name in ("find_map", "filter_map", "find") and c.args:
+                        ad, _ = iter_chain(prog, g, c.args[0])
+                        for ff, a in ad:
+                            if a.name in DROPPING_ITER:
+                                kind_test = any(cc.name == "contains" and "BitSet" in cc.best for gg in prog.closures_of(ff) for cc in gg.calls
+                                                if (closure_consumer(prog, gg) or (None, None))[1] is not None and closure_consumer(prog, gg)[1].line == a.line)
+                                if not kind_test:
+                                    drops.append(a.name)
+            ctx.ob("R6", "FindAllNodes::next/only the kind test skips a candidate", not drops,
+                   "iterator form: the only element-dropping adaptor is the kind filter" if not drops else
+                   "candidates pass through %s besides the kind filter before the matcher is tried" % drops, where=fan.loc())
         ffam = prog.family(fan)
         pk = [c for g in ffam for c in g.calls if c.name == "potential_kinds"]
         mn = [c for g in ffam for c in g.calls if c.name in ("match_node", "match_node_with_env")]
